@@ -1875,9 +1875,9 @@ def _enum_multidv(tier):
 
 
 SUBCHECKS = [
-    SubCheck('covariate', lambda: COV_SPEC, run_covariate, quick=400, thorough=12000),
-    SubCheck('variability', lambda: VAR_SPEC, run_variability, quick=600, thorough=15000, enumerate=_enum_variability),
-    SubCheck('error', lambda: ERR_SPEC, run_error, quick=550, thorough=15000),
-    SubCheck('error_multidv', lambda: MDV_SPEC, run_error_multidv, quick=150, thorough=4000, enumerate=_enum_multidv),
-    SubCheck('transit_absorption', lambda: ABS_SPEC, run_transit_absorption, quick=300, thorough=8000),
+    SubCheck('covariate', lambda: COV_SPEC, run_covariate, quick=400, thorough=7090),
+    SubCheck('variability', lambda: VAR_SPEC, run_variability, quick=600, thorough=10640, enumerate=_enum_variability),
+    SubCheck('error', lambda: ERR_SPEC, run_error, quick=550, thorough=9750),
+    SubCheck('error_multidv', lambda: MDV_SPEC, run_error_multidv, quick=150, thorough=2660, enumerate=_enum_multidv),
+    SubCheck('transit_absorption', lambda: ABS_SPEC, run_transit_absorption, quick=300, thorough=5320),
 ]
